@@ -326,6 +326,9 @@ func exec(c proto.Case, o *proto.Out) []string {
 		}
 	}()
 	admits, refuses := 0, 0
+	seenArr := map[string]bool{}
+	irregular := false
+	var arrivals []int64
 	for i, op := range c.Ops {
 		f := strings.Fields(op)
 		if len(f) == 0 {
@@ -400,6 +403,24 @@ func exec(c proto.Case, o *proto.Out) []string {
 			}
 			w.setTime(t)
 			as := apiStream(int(q), "r"+r, hd)
+			if f[0] == "inc" || f[0] == "req" {
+				// input distribution: repeated arrivals of an id; arrivals relative to window boundaries
+				if seenArr[r] {
+					irregular = true
+				}
+				seenArr[r] = true
+				for qi := int(q); qi >= 0 && qi < len(qs); qi = qs[qi].parent {
+					for _, t0 := range arrivals {
+						switch d := t - (t0/int64(time.Second))*int64(time.Second) - qs[qi].win; {
+						case d == 0:
+							o.Count("arrival-exactly-on-window-end")
+						case d == -1 || d == 1:
+							o.Count("arrival-1ns-off-window-end")
+						}
+					}
+				}
+				arrivals = append(arrivals, t)
+			}
 			if w.level == 2 {
 				if f[0] != "req" {
 					outs[i] = "err:level"
@@ -479,6 +500,11 @@ func exec(c proto.Case, o *proto.Out) []string {
 		}
 	}
 	o.Count(fmt.Sprintf("quotas-%d", len(qs)))
+	if irregular {
+		o.Count("history-irregular(id-arrives-twice;diff-only)")
+	} else {
+		o.Count("history-regular(judged)")
+	}
 	if admits > 0 && refuses > 0 {
 		o.NonTrivial(strings.Join(c.Ops, "|") + "#" + strings.Join(outs, "|"))
 		o.Count("nontrivial")
